@@ -347,3 +347,170 @@ func TestC20Random(t *testing.T) {
 		}
 	})
 }
+
+// fnOp is one operation of a history over data entries that are host functions.
+type fnOp struct {
+	Op string `json:"op"`           // setthis | setnil | setvalue | write | runner | resolve
+	Fn int    `json:"fn,omitempty"` // which function (1..3) the operation installs
+	F  int    `json:"f,omitempty"`  // resolve: which formula
+}
+
+type fnHistory struct {
+	Ops []fnOp `json:"ops"`
+}
+
+var c20FnFormulas = []string{"rate(10)", "[rate(1), rate(2)]", "rate(rate(3))", "rate(k + 9)", "max(rate(5), 0)"}
+
+func (hh fnHistory) String() string {
+	var p []string
+	for _, o := range hh.Ops {
+		switch o.Op {
+		case "resolve":
+			p = append(p, "Resolve("+c20FnFormulas[o.F]+")")
+		case "setnil", "runner":
+			p = append(p, o.Op)
+		default:
+			p = append(p, fmt.Sprintf("%s(rate=f%d)", o.Op, o.Fn))
+		}
+	}
+	return strings.Join(p, "; ")
+}
+
+// checkFnHistory: the formulas are parsed once per history; the function a plain name denotes is the
+// entry of that name in the data map the evaluating runner holds NOW.
+func checkFnHistory(hh fnHistory) string {
+	fns := map[int]func(float64) (float64, error){
+		1: func(x float64) (float64, error) { return x + 1, nil },
+		2: func(x float64) (float64, error) { return x * 2, nil },
+		3: func(x float64) (float64, error) { return x - 7, nil },
+	}
+	apply := func(id int, x float64) float64 { v, _ := fns[id](x); return v }
+	trees := make([]*formula.SourceCode, len(c20FnFormulas))
+	for i, f := range c20FnFormulas {
+		p := obs.Parse([]byte(f))
+		if !p.OK() {
+			return "HARNESS: " + f
+		}
+		trees[i] = p.Src
+	}
+	type state struct {
+		r    *formula.Runner
+		data map[string]interface{} // the map the runner holds (nil: none)
+		id   int                    // the function bound to "rate" in it, 0: none
+		k    float64                // the entry k of it (absent: null, which counts 0 in a sum)
+	}
+	runners := []*state{{r: formula.NewRunner()}, {r: formula.NewRunner()}}
+	cur := runners[0]
+	for i, op := range hh.Ops {
+		where := fmt.Sprintf("step %d of [%s]", i+1, hh)
+		switch op.Op {
+		case "setthis":
+			cur.data = map[string]interface{}{"rate": fns[op.Fn], "k": 1}
+			cur.id, cur.k = op.Fn, 1
+			cur.r.SetThis(cur.data)
+		case "setnil":
+			cur.data, cur.id, cur.k = nil, 0, 0
+			cur.r.SetThis(nil)
+		case "setvalue":
+			cur.r.SetThisValue("rate", fns[op.Fn])
+			cur.id = op.Fn
+		case "write":
+			if cur.data != nil {
+				cur.data["rate"] = fns[op.Fn]
+				cur.id = op.Fn
+			}
+		case "runner":
+			if cur == runners[0] {
+				cur = runners[1]
+			} else {
+				cur = runners[0]
+			}
+		case "resolve":
+			out := obs.Eval(cur.r, context.Background(), trees[op.F].Expression)
+			if out.Panic != nil {
+				return fmt.Sprintf("%s panicked: %v", where, out.Panic)
+			}
+			if cur.id == 0 {
+				if out.Err == nil {
+					return fmt.Sprintf("%s: the runner holds no entry 'rate', yet the formula evaluated to %s", where, obs.Show(out.Val))
+				}
+				continue
+			}
+			var want interface{}
+			switch op.F {
+			case 0:
+				want = apply(cur.id, 10)
+			case 3:
+				want = apply(cur.id, cur.k+9)
+			case 1:
+				want = []interface{}{apply(cur.id, 1), apply(cur.id, 2)}
+			case 2:
+				want = apply(cur.id, apply(cur.id, 3))
+			case 4:
+				want = apply(cur.id, 5)
+				if want.(float64) < 0 {
+					want = float64(0)
+				}
+			}
+			if out.Err != nil || fmt.Sprint(out.Val) != fmt.Sprint(want) {
+				return fmt.Sprintf("%s = %s (%v): the runner's data map binds rate to f%d, which gives %v", where, obs.Show(out.Val), out.Err, cur.id, want)
+			}
+		}
+	}
+	return ""
+}
+
+func init() {
+	h.RegisterReplay("c20-fn", func(raw json.RawMessage) string {
+		c, err := h.Decode[fnHistory](raw)
+		if err != nil {
+			return "bad replay: " + err.Error()
+		}
+		return checkFnHistory(c)
+	})
+}
+
+// TestC20HostFunctions: entries that are host functions are data like any other.
+func TestC20HostFunctions(t *testing.T) {
+	run := h.Begin("C20", "host-functions", "rapid: histories of 2..10 operations over two runners - SetThis(map with rate=f_i), SetThis(nil), SetThisValue(rate, f_j), the caller writing rate=f_k into its own map, switching to the other runner, Resolve of one of 5 formulas that call rate (parsed once per history: the same trees serve every step); oracle: the function applied is the entry the evaluating runner's map holds now, no entry is an error; non-trivial: a Resolve after the binding changed since the previous Resolve of the same tree")
+	defer run.End(t)
+	h.RapidSetup(h.N(1500, 200000), "c20fn")
+	rapid.Check(t, func(rt *rapid.T) {
+		n := rapid.IntRange(2, 10).Draw(rt, "n")
+		var hh fnHistory
+		for i := 0; i < n; i++ {
+			switch rapid.IntRange(0, 8).Draw(rt, "op") {
+			case 0:
+				hh.Ops = append(hh.Ops, fnOp{Op: "setthis", Fn: rapid.IntRange(1, 3).Draw(rt, "fn")})
+			case 1:
+				hh.Ops = append(hh.Ops, fnOp{Op: "setnil"})
+			case 2:
+				hh.Ops = append(hh.Ops, fnOp{Op: "setvalue", Fn: rapid.IntRange(1, 3).Draw(rt, "fn")})
+			case 3:
+				hh.Ops = append(hh.Ops, fnOp{Op: "write", Fn: rapid.IntRange(1, 3).Draw(rt, "fn")})
+			case 4:
+				hh.Ops = append(hh.Ops, fnOp{Op: "runner"})
+			default:
+				hh.Ops = append(hh.Ops, fnOp{Op: "resolve", F: rapid.IntRange(0, len(c20FnFormulas)-1).Draw(rt, "f")})
+			}
+		}
+		resolves, changed, nontrivial := 0, false, false
+		for _, o := range hh.Ops {
+			if o.Op == "resolve" {
+				if resolves > 0 && changed {
+					nontrivial = true
+				}
+				resolves++
+				changed = false
+			} else {
+				changed = true
+			}
+		}
+		run.CountKey(hh.String(), nontrivial, "")
+		run.Sample("history", hh.String())
+		if msg := checkFnHistory(hh); msg != "" {
+			run.Pending("fn", "c20-fn", hh, msg)
+			rt.Fatalf("%s", msg)
+		}
+	})
+}
